@@ -2,3 +2,78 @@
 
 /// C35: plain-field construction of account policies and the real fold.
 pub use crate::idm::accountpolicy::verif as accountpolicy;
+
+/// C28: the crate-private soft lock, behind an opaque clonable handle.
+pub mod softlock {
+    use crate::credential::softlock::{CredSoftLock, CredSoftLockPolicy};
+    use std::time::Duration;
+
+    #[derive(Clone)]
+    pub struct SoftLock(CredSoftLock);
+
+    impl SoftLock {
+        pub fn new(policy: CredSoftLockPolicy) -> Self {
+            SoftLock(CredSoftLock::new(policy))
+        }
+        pub fn apply_time_step(&mut self, ct: Duration, expire_at: Option<Duration>) {
+            self.0.apply_time_step(ct, expire_at)
+        }
+        pub fn is_valid(&self) -> bool {
+            self.0.is_valid()
+        }
+        pub fn record_failure(&mut self, ct: Duration) {
+            self.0.record_failure(ct)
+        }
+        pub fn debug(&self) -> String {
+            format!("{:?}", self.0)
+        }
+    }
+}
+
+/// C27/C28/C31/C37: credential values with chosen secrets (the crate's own constructors are
+/// `pub(crate)`), always with the minimum crypto policy so hashing stays cheap.
+pub mod cred {
+    use crate::credential::totp::Totp;
+    use crate::credential::{BackupCodes, Credential};
+    use crate::prelude::*;
+    use kanidm_lib_crypto::CryptoPolicy;
+    use time::OffsetDateTime;
+
+    pub fn password_only(cleartext: &str, ts: OffsetDateTime) -> Result<Credential, OperationError> {
+        Credential::new_password_only(&CryptoPolicy::minimum(), cleartext, ts)
+    }
+
+    pub fn generated_password_only(
+        cleartext: &str,
+        ts: OffsetDateTime,
+    ) -> Result<Credential, OperationError> {
+        Credential::new_generatedpassword_only(&CryptoPolicy::minimum(), cleartext, ts)
+    }
+
+    pub fn append_totp(c: &Credential, label: &str, totp: Totp, ts: OffsetDateTime) -> Credential {
+        c.append_totp(label.to_string(), totp, ts)
+    }
+
+    pub fn set_backup_codes(
+        c: &Credential,
+        codes: &[String],
+        ts: OffsetDateTime,
+    ) -> Result<Credential, OperationError> {
+        let set: hashbrown::HashSet<String> = codes.iter().cloned().collect();
+        c.update_backup_code(BackupCodes::new(set), ts)
+    }
+
+    /// Number of backup codes left on a credential (None: not an MFA credential / none set).
+    pub fn backup_codes_remaining(c: &Credential) -> Option<usize> {
+        match &c.type_ {
+            crate::credential::CredentialType::PasswordMfa(_, _, _, Some(bc)) => {
+                Some(bc.to_dbbackupcodev1().code_set.len())
+            }
+            _ => None,
+        }
+    }
+
+    pub fn cred_uuid(c: &Credential) -> Uuid {
+        c.uuid
+    }
+}
